@@ -201,7 +201,13 @@ where
         if buf == BAM_MAGIC_NUMBER {
             return Ok(Format::Bam);
         } else if buf == CRAM_MAGIC_NUMBER {
-            return Ok(Format::Cram);
+            // The name of the first record of a headerless SAM can start with "CRAM". It
+            // continues with a read name character or the field delimiter, which the major
+            // version number following the CRAM magic number never is.
+            match src.get(CRAM_MAGIC_NUMBER.len()) {
+                Some(b) if b.is_ascii_graphic() || *b == b'\t' => {}
+                _ => return Ok(Format::Cram),
+            }
         }
     }
 
